@@ -12,13 +12,53 @@
 #include <stdlib.h>
 #include <string.h>
 #include "vf.h"
-#include "/repo/dbus/dbus-auth.c"
 #ifndef L
 #define L 7
 #endif
 #ifndef H
 #define H 3
 #endif
+#ifndef BL
+#define BL 3
+#define NB 1
+#endif
+#ifndef KEY
+#define KEY 2
+#endif
+#define ISBLANK(c) ((c) == ' ' || (c) == '\t')
+/* real dbus-string.c, except that strings live in fixed 96-byte buffers taken from a pool (no heap growth: R19) */
+#define _dbus_string_init vf_unused_string_init
+#define _dbus_string_free vf_unused_string_free
+#ifndef CONTRACT
+#define _dbus_string_find_blank vf_real_find_blank
+#define _dbus_string_skip_blank vf_real_skip_blank
+#endif
+#include "/repo/dbus/dbus-string.c"
+#undef _dbus_string_init
+#undef _dbus_string_free
+#ifndef CONTRACT
+#undef _dbus_string_find_blank
+#undef _dbus_string_skip_blank
+/* The two blank scanners are replaced by their contract with CONCRETE answers (BL = index of the first blank or -1, NB = length of
+ * the blank run): every later string position is then a constant (R19).  The contract is checked against the real scanners for
+ * every string of L bytes by the twin job built with -DCONTRACT. */
+static const void *vf_data;
+dbus_bool_t _dbus_string_find_blank (const DBusString *s, int start, int *found)
+{ VF_ASSERT (s == vf_data && start == 0, "scanner called on the payload from 0"); if (found) *found = BL >= 0 ? BL : L; return BL >= 0; }
+void _dbus_string_skip_blank (const DBusString *s, int start, int *end)
+{ VF_ASSERT (s == vf_data && start == BL && BL >= 0, "blank run skipped from the first blank"); *end = BL + NB; }
+#endif
+#define VF_NSTR 12
+static unsigned char vf_pool[VF_NSTR][96] __attribute__ ((aligned (8))); static int vf_pool_used;
+dbus_bool_t _dbus_string_init (DBusString *str)
+{
+  DBusRealString *r = (DBusRealString *) str;
+  VF_ASSERT (vf_pool_used < VF_NSTR, "string pool large enough (harness bound)");
+  r->str = vf_pool[vf_pool_used++]; r->len = 0; r->allocated = 96; r->constant = 0; r->locked = 0; r->valid = 1; r->align_offset = 0; r->str[0] = 0;
+  return 1;
+}
+void _dbus_string_free (DBusString *str) { DBusRealString *r = (DBusRealString *) str; if (!r->constant) r->valid = 0; }
+#include "/repo/dbus/dbus-auth.c"
 struct DBusCredentials { int kind; };
 static struct DBusCredentials c_socket, c_authorized, c_desired; static int authorized_set, key_kind; static char gh[H];
 dbus_bool_t _dbus_credentials_are_anonymous (DBusCredentials *c) { return 0; }
@@ -42,11 +82,19 @@ void harness (void)
   VF_ASSUME (_dbus_string_init (&auth->outgoing) && _dbus_string_init (&auth->identity) && _dbus_string_init (&auth->challenge) && _dbus_string_init (&auth->incoming) && _dbus_string_init (&srv.guid));
   VF_ASSUME (_dbus_string_append (&auth->challenge, "c1") && _dbus_string_append (&auth->identity, "u"));
   srv.max_failures = 6; srv.failures = failures0 = vf_range (0, 5);
-  key_kind = vf_range (0, 2);
+  key_kind = KEY;      /* job shape: 0 keyring failure, 1 unknown cookie id (empty key), 2 key found */
   for (i = 0; i < L; i++) d[i] = (char) vf_u8 ();
+  /* job shape: first blank at BL (none if -1), blank run of NB bytes */
+  for (i = 0; i < L; i++) { if (BL < 0 || i < BL) VF_ASSUME (!ISBLANK (d[i])); else if (i < BL + NB) VF_ASSUME (ISBLANK (d[i])); else if (i == BL + NB) VF_ASSUME (!ISBLANK (d[i])); }
   _dbus_string_init_const_len (&data, d, L);
-  for (i = L - 1; i >= 0; i--) if (d[i] == ' ' || d[i] == '\t') blank = i;
-  hs = blank; if (blank >= 0) while (hs < L && (d[hs] == ' ' || d[hs] == '\t')) hs++;
+  blank = BL; hs = BL + NB;
+#ifdef CONTRACT
+  { int f = -7, e2 = -7; dbus_bool_t r = _dbus_string_find_blank (&data, 0, &f);
+    VF_ASSERT (r == (BL >= 0) && f == (BL >= 0 ? BL : L), "find_blank reports the first blank, or the length when there is none");
+    if (BL >= 0) { _dbus_string_skip_blank (&data, f, &e2); VF_ASSERT (e2 == BL + NB, "skip_blank stops at the first non-blank"); }
+    VF_WITNESS ("end of harness reached"); return; }
+#else
+  vf_data = &data;
   expect = blank > 0 && key_kind == 2 && L - hs == H;
   if (expect) for (i = 0; i < H; i++) if (hs + i < L) { /* digest is chosen later: compare after the call */ }
 
@@ -58,7 +106,11 @@ void harness (void)
     {
       VF_ASSERT (expect, "OK only when the client's hash equals the whole digest for a valid cookie and a non-empty client challenge");
       VF_ASSERT (authorized_set && ok && srv.failures == failures0, "OK records the identity");
+#if KEY == 2 && BL > 0 && (L - BL - NB) == H
       VF_WITNESS ("cookie accepted");
+#else
+      VF_WITNESS_OPT ("cookie accepted");
+#endif
     }
   else if (ok)
     {
@@ -66,7 +118,10 @@ void harness (void)
       VF_ASSERT (srv.failures == failures0 + 1 && !authorized_set && auth->mech == 0 && _dbus_string_get_length (&auth->identity) == 0, "a wrong response is REJECTED, counted, and forgets the identity");
       VF_ASSERT (auth->state == (srv.failures >= srv.max_failures ? &common_state_need_disconnect : &server_state_waiting_for_auth), "and disconnects after max_failures");
       if (blank > 0 && key_kind == 2 && L - hs < H && L - hs > 0) VF_WITNESS_OPT ("shorter-than-digest hash rejected");
+#if KEY != 0
       VF_WITNESS ("cookie response rejected");
+#endif
     }
   VF_WITNESS ("end of harness reached");
+#endif
 }
